@@ -187,6 +187,12 @@ def cases(ctx):
                     cfg, pre, how = limit_cfg(rng, "depth", L)
                     doc = "<svg>%s%s</svg>" % (pre, inner)
                     out.append(dict(family="depth.mixed", L=L, n=D, input=doc.encode(), cfg=cfg, accept=(D <= L), how=how))
+    # ---- forward-reference chains: resolving them takes one pass per link, which is no loop and counts against no limit
+    for L in (0, 1, 2, 5):
+        for m in (2, 3, 4, 8, 20):
+            body = "".join('<rect id="r%d" xy="#r%d|h 1" wh="2"/>' % (i, i + 1) for i in range(m)) + '<rect id="r%d" wh="2"/>' % m
+            cfg, pre, how = limit_cfg(rng, "loop", L)
+            out.append(dict(family="flat.fwd-chain", L=L, n=m, input=("<svg>%s%s</svg>" % (pre, body)).encode(), cfg=cfg, accept=True, count=("rect", m + 1), how=how, flat=True))
     # ---- flat documents, default limits
     for kind, tmpl in FLAT_KINDS.items():
         for m in ([50, 99, 100, 101, 150, 400] + ([1000, 2000] if not quick or kind in ("rect", "text-content", "g", "defs") else [])):
